@@ -106,11 +106,13 @@ func idsBlocksImpl(dir string, size int, ids []seq.ID, pos []uint64) string {
 }
 
 type idsFile struct {
-	key  string
-	f    *os.File
-	pre  *frac.VerifIDsIndex
-	load *frac.VerifIDsIndex
-	note string
+	probeReq  string // loader.probe request (registry headers of the file)
+	probeImpl string // what the real Loader returned
+	key       string
+	f         *os.File
+	pre       *frac.VerifIDsIndex
+	load      *frac.VerifIDsIndex
+	note      string
 }
 
 var lastIDsFile *idsFile
@@ -157,9 +159,40 @@ func openIDsFile(dir string, ids []seq.ID, pos []uint64) (*idsFile, error) {
 	}
 	reader := disk.NewIndexReader(readLimiter, f, cache.NewCache[[]byte](nil, nil))
 	x.pre = frac.VerifNewIDsIndex(&reader, newIndexCache(), tbl, frac.VerifCurrentBinaryDataVersion)
-	ltbl, _, _, err := frac.VerifLoadTables(&reader)
+	var hs []string
+	for i := uint32(0); ; i++ {
+		h, err := reader.GetBlockHeader(i)
+		if err != nil {
+			break
+		}
+		hs = append(hs, fmt.Sprintf("%d:%d:%d", h.Len(), h.GetExt1(), h.GetExt2()))
+	}
+	x.probeReq = "loader.probe " + strings.Join(hs, ",")
+	x.probeImpl = "panic"
+	func() {
+		defer func() { recover() }()
+		it, _, lt, err := frac.VerifLoadTables(&reader)
+		if err != nil {
+			return
+		}
+		var ls []string
+		for k := range lt.MinTIDs {
+			ls = append(ls, fmt.Sprintf("%d:%d:%s", lt.MinTIDs[k], lt.MaxTIDs[k], vh.B(lt.IsContinued[k])))
+		}
+		x.probeImpl = fmt.Sprintf("ok idsStart=%d ids=%s lidsStart=%d lids=%s", it.DiskStartBlockIndex, fmtIDs(it.MinBlockIDs), lt.StartIndex, vh.JoinStrs(ls, ","))
+	}()
+	var ltbl frac.IDsTable
+	func() { // the loader panics (logger.Panic) on a registry it cannot follow: an observation, not a harness crash
+		defer func() {
+			if r := recover(); r != nil {
+				err = fmt.Errorf("loader-panic")
+			}
+		}()
+		ltbl, _, _, err = frac.VerifLoadTables(&reader)
+	}()
 	if err != nil {
-		return x, err
+		x.note = "loaded-table-unreadable:" + err.Error()
+		return x, nil
 	}
 	if fmtIDs(ltbl.MinBlockIDs) != fmtIDs(tbl.MinBlockIDs) || ltbl.IDsTotal != tbl.IDsTotal || ltbl.DiskStartBlockIndex != tbl.DiskStartBlockIndex {
 		x.note = "loaded-table-differs"
@@ -222,7 +255,9 @@ func idsAnswer(line, tmp string) (string, bool) {
 			lid, _ := strconv.ParseUint(strings.TrimPrefix(l, "L"), 10, 32)
 			id := parseID(ids)
 			a := idsQueryOne(lastIDsFile.pre, uint32(lid), id)
-			if b := idsQueryOne(lastIDsFile.load, uint32(lid), id); a != b && !onlyLE {
+			if lastIDsFile.load == nil {
+				// reported through the note below
+			} else if b := idsQueryOne(lastIDsFile.load, uint32(lid), id); a != b && !onlyLE {
 				a = "loaded-differs(" + a + "/" + b + ")"
 			}
 			if onlyLE {
@@ -319,10 +354,12 @@ func runIDsChannels(o vh.Opts, rng *vh.RNG, rep *vh.Report, tmp string) {
 	rep.AddChannel(bl, o.Driver)
 
 	q := vh.NewChannel("ids.index", "sealedIDsIndex.GetMID / GetRID / positions / LessOrEqual over a real index file (writer block size consts.IDsBlockSize, reader consts.IDsPerBlock; both the table kept from sealing and the table re-loaded from the registry) vs getMID / getRID / getPos / lessOrEqual at per = 4096: id sequences of 1, 2, 4095, 4096, 4097, 8192, 8193 and ~9000 ids; queried LIDs around every block boundary, 0, total-1, total, total+k; queried ids = the LID's own id, its neighbours, (mid, MaxUint64), (mid-1, MaxUint64), (mid+1, 0), rid+-1, block minima, random; non-trivial = the id sequence has >= 2 blocks")
-	sizes := []int{1, 2, 4096, 4097, 8193}
+	sizes := []int{1, 2, 4095, 4096, 4097, 8192}
 	if o.Thorough() {
-		sizes = append(sizes, 4095, 8192, 9000, 12288, 12289, 5000, 3)
+		sizes = append(sizes, 4094, 8191, 8193, 9000, 12287, 12288, 12289, 5000, 3)
 	}
+	probe := vh.NewChannel("loader.probe", "frac.Loader (skipTokens, loadIDs, loadLIDsBlocksTable) on real index files vs loadTables on the file's registry headers (len, ext1, ext2 of every block): ID sequences of cap*k-2 .. cap*k+1 ids for the real capacity 4096 (k = 1..3), i.e. also a completely full last ID block; compared: start of the ID section, MinBlockIDs, start of the LID section, LID table; non-trivial = IDsTotal is an exact multiple of IDsPerBlock")
+	seenProbe := map[string]bool{}
 	for si, n := range append(sizes, sizes...) {
 		ids, pos := genSortedIDs(rng, n)
 		sameMS := si >= len(sizes)
@@ -390,10 +427,15 @@ func runIDsChannels(o vh.Opts, rng *vh.RNG, rep *vh.Report, tmp string) {
 			line := fmt.Sprintf("ids.query 4096 %s %s %s", idsS, posS, strings.Join(qs[start:min(start+400, len(qs))], ";"))
 			impl, _ := idsAnswer(line, dir)
 			q.Add(line, impl, n > 4096, fmt.Sprintf("n=%d", n), fmt.Sprintf("same-ms-run=%v", sameMS))
+			if lastIDsFile != nil && !seenProbe[lastIDsFile.key] {
+				seenProbe[lastIDsFile.key] = true
+				probe.Add(lastIDsFile.probeReq, lastIDsFile.probeImpl, n%4096 == 0, fmt.Sprintf("n mod 4096 = %d", n%4096))
+			}
 			q.Distribution["queries"] += min(400, len(qs)-start)
 		}
 	}
 	rep.AddChannel(q, o.Driver)
+	rep.AddChannel(probe, o.Driver)
 
 	fi := vh.NewChannel("frac.index", "sortSeqIDs (sealed ID order + old->new LID index) and newInverser + inverseLIDs (the active fraction's posting node content) vs sealedIDs / buildIndex / activeNode: random fractions of 1..40 documents inserted out of ID order, a posting list that is a sub-list of the all-documents list (plus foreign LIDs that are not in the inverser), random LID windows; non-trivial = posting list with >= 2 documents")
 	for i := 0; i < o.Pick(300, 4000); i++ {
